@@ -248,3 +248,35 @@ Lemma nelder_mead_shrink_order_refuted :
                                 0x1.b7cdfd9d7bdbbp-34 0x1.b7cdfd9d7bdbbp-34 1000) with
   | Some (_, v, true, _) => PrimFloat.ltb v 1.625 | _ => false end = true.
 Proof. vm_compute. split; reflexivity. Qed.
+
+(* ---- the order array: permutation fails in the pinned shrink form, sortedness can fail in the repaired one ---- *)
+Fixpoint nodupb (l : list nat) : bool :=
+  match l with [] => true | x :: r => negb (existsb (Nat.eqb x) r) && nodupb r end.
+
+(* negative Rosenbrock -((1-x)^2 + 10 (y - x^2)^2) *)
+Definition negrosen10 (x : list float) : float :=
+  let a := nth 0 x 0%float in let b := nth 1 x 0%float in
+  (- (((1 - a) * (1 - a)) + ((10 * (b - a * a)) * (b - a * a))))%float.
+
+(* order array at the end of the PINNED run from (-3.625, 0.375) with max_iter = 9 *)
+Definition final_order_old : option (list nat) :=
+  match nm_loop_old negrosen10 [] 1 2 0.5 0.5 10 (nm_init negrosen10 [] 0x1.999999999999ap-5 0x1.0624dd2f1a9fcp-12 [(-3.625)%float; 0.375%float])
+                    2 (npow 0.5 2) 0x1.b7cdfd9d7bdbbp-34 0x1.b7cdfd9d7bdbbp-34 9 with
+  | Some (s, _) => Some (si s) | None => None end.
+
+(* pinned shrink step (positions instead of vertex indices): the order array ends as [2; 1; 2], not a permutation of 0..2
+   (contrast: Proofs7.nelder_mead_order_permutation for the repaired step) *)
+Lemma nelder_mead_old_order_not_permutation :
+  final_order_old = Some [2; 1; 2]%nat /\ nodupb [2; 1; 2]%nat = false.
+Proof. vm_compute. split; reflexivity. Qed.
+
+(* repaired code, negative Rosenbrock -((1-x)^2 + 10 (y - x^2)^2) from (-3.375, 0.625), max_iter 50: a shrink pass produces a
+   vertex better than the best one, sort_ind[0] keeps naming the old best, term_f goes negative and the run stops with
+   success=True returning a vertex (value 4.8927 = -fun) that is NOT the best stored vertex (vertex 1 has 4.0511) *)
+Lemma nelder_mead_sorted_refuted :
+  match nelder_mead negrosen10 [] 1 2 0.5 0.5 0x1.999999999999ap-5 0x1.0624dd2f1a9fcp-12 [(-3.375)%float; 0.625%float]
+                    0x1.b7cdfd9d7bdbbp-34 0x1.b7cdfd9d7bdbbp-34 50 with
+  | NMRes x (Fin nf) true 8%Z V =>
+      PrimFloat.eqb nf 0x1.3921c5c3957f8p+2 && ext_lt (neg_fun negrosen10 [] (nth 1 V [])) (Fin nf)
+  | _ => false end = true.
+Proof. vm_compute. reflexivity. Qed.
